@@ -83,12 +83,18 @@ def opAmbiguity (j : Json) : Except String Json := do
     let flat : List Rat := specCounts.flatten.map (fun (n : Nat) => (n : Rat))
     let specVals : List Val := if normalization then normalizeWithPercentile 1 flat else flat.map Val.num
     let specBand := regrid ((specCounts.headD []).length) specCounts.length (specVals.map (Val.map (fun x => 1 - x)))
-    let defBad := if sameShape impl specBand then firstBad (zip2 impl specBand) (fun p => valClose tol p.1 p.2)
+    let isConst (g : Grid Nat) : Bool :=
+      let flatC : List Rat := g.flatten.map (fun (n : Nat) => (n : Rat))
+      let clipped := flatC.map (clipRat (percentile flatC 1) (percentile flatC 99))
+      match lmin clipped, lmax clipped with | some a, some b => decide (a = b) | _, _ => true
+    -- the clipped ambiguity map is constant: for the specification's counts, or (max measure, finding F10) for the
+    -- best = min counts the code normalises
+    let constClipped := isConst specCounts || isConst minCounts
+    -- a constant clipped map has no normalised value (0/0): only the range clause speaks about it
+    let defBad := if normalization && isConst specCounts then (if sameShape impl specBand then none else some (0, 0))
+                  else if sameShape impl specBand then firstBad (zip2 impl specBand) (fun p => valClose tol p.1 p.2)
                   else some (0, 0)
     let rangeBad := if normalization then firstBad impl Spec.inUnit else none
-    let flatC : List Rat := specCounts.flatten.map (fun (n : Nat) => (n : Rat))
-    let clipped := flatC.map (clipRat (percentile flatC 1) (percentile flatC 99))
-    let constClipped := match lmin clipped, lmax clipped with | some a, some b => decide (a = b) | _, _ => true
     return mkObj [
       ("model_counts", natGridToJson modelCounts), ("model_band", valGridToJson modelBand),
       ("spec_counts", natGridToJson specCounts), ("spec_band", valGridToJson specBand),
